@@ -343,6 +343,32 @@ mutant('C14', 'module-stopped-status-lost', 'frappy/states.py',
        "            sm.stop()")
 mutant('C14', 'module-error-status-idle', 'frappy/states.py',
        "        self.final_status(ERROR, repr(sm.cleanup_reason))", "        self.final_status(BUSY, repr(sm.cleanup_reason))")
+# ---------------------------------------------------------------- C15
+mutant('C15', 'shutdown-order-reversed', 'frappy/secnode.py',
+       "                return l[::-1] + list(visited) + list(unmarked)\n        return l[::-1]",
+       "                return l[::-1] + list(visited) + list(unmarked)\n        return l")
+mutant('C15', 'shutdown-ignores-configured-attachments', 'frappy/secnode.py',
+       "        names = [m.name for m in modobj.attachedModules.values()]\n        for pname, prop in modobj.propertyDict.items():",
+       "        names = [m.name for m in modobj.attachedModules.values()]\n        for pname, prop in ():")
+mutant('C15', 'shutdown-before-stopping-pollers', 'frappy/secnode.py',
+       "        for mod in self.modules.values():\n            mod.stopPollThread()\n            # do not yet join here, as we want to wait in parallel",
+       "        for name in self._getSortedModules():\n            self.modules[name].shutdownModule()\n        for mod in self.modules.values():\n            mod.stopPollThread()\n            # do not yet join here, as we want to wait in parallel")
+mutant('C15', 'started-callback-before-first-polls', 'frappy/modulebase.py',
+       "        while True:\n            try:\n                for mobj in modules:\n                    # TODO when needed: here we might add a call to a method :meth:`beforeWriteInit`",
+       "        if started_callback:\n            started_callback()\n            started_callback = None\n        while True:\n            try:\n                for mobj in modules:\n                    # TODO when needed: here we might add a call to a method :meth:`beforeWriteInit`")
+mutant('C15', 'init-writes-after-first-reads', 'frappy/modulebase.py',
+       "                for mobj in modules:\n                    # TODO when needed: here we might add a call to a method :meth:`beforeWriteInit`\n                    mobj.writeInitParams()\n                    mobj.initialReads()\n                # call all read functions a first time\n                for m in polled_modules:\n                    for mobj, rfunc, _ in m.pollInfo.polled_parameters:\n                        mobj.callPollFunc(rfunc, raise_com_failed=True)",
+       "                for m in polled_modules:\n                    for mobj, rfunc, _ in m.pollInfo.polled_parameters:\n                        mobj.callPollFunc(rfunc, raise_com_failed=True)\n                for mobj in modules:\n                    mobj.writeInitParams()\n                    mobj.initialReads()")
+mutant('C15', 'no-cycle-check', 'frappy/server.py',
+       "        self.secnode.check_attachments()\n", "")
+mutant('C15', 'init-errors-swallowed', 'frappy/secnode.py',
+       "            self.errors.append(f'error initializing {modulename}: {e!r}')\n        finally:",
+       "            pass\n        finally:")
+mutant('C15', 'wrong-type-accepted', 'frappy/modules.py',
+       "            if not isinstance(modobj, self.basecls):", "            if False:")
+mutant('C15', 'shutdown-twice', 'frappy/secnode.py',
+       "        for name in self._getSortedModules():\n            self.modules[name].shutdownModule()\n\n    def _attached_names",
+       "        for name in self._getSortedModules():\n            self.modules[name].shutdownModule()\n        for mod in list(self.modules.values())[:1]:\n            mod.shutdownModule()\n\n    def _attached_names")
 
 
 def run_mutant(prop, name, file, old, new, runs, extra):
